@@ -36,12 +36,34 @@ SK = {
     'api-db': ("SELECT a FROM apidb.tbl5 WHERE a > 1 AND b = 2 ORDER BY a LIMIT 2", {'apidb': {'tbl5'}}, []),
     'files': ("SELECT * FROM files.f1 AS f JOIN {A}.tbl1 AS t ON f.id = t.id", {'files': {'f1'}, 'int1': {'tbl1'}}, []),
 }
+# ---- generated sub-family: two tables in two integrations, join kind x ON shape x WHERE shape x tail ---------------------
+G_JOINS = ['JOIN', 'LEFT JOIN', 'RIGHT JOIN']
+G_ONS = ['a.id = b.id', 'b.ref = id', 'id = b.ref', 'a.id = b.id AND b.kind = kind', 'a.id = b.id AND b.kind = 1', 'a.id = b.id AND 1 = b.kind',
+         'a.id > b.id', 'upper(a.s) = b.s', 'a.id IN (1, 2)', 'a.id = b.id OR a.x = b.x', 'NOT a.id = b.id', 'a.id IS NULL',
+         'a.id = b.id AND b.d = (SELECT max(z) FROM {A}.tbl3)', 'a.id BETWEEN b.lo AND b.hi', 'a.id = b.id AND a.s LIKE b.s', 'a.id = b.id AND b.kind = a.kind AND a.x = 0']
+G_WHERES = [None, 'a.x > 1', 'x > 1', 'a.x = b.x', 'a.x IN (SELECT z FROM {B}.tbl4)', 'a.x > 1 OR b.y < 2', 'a.x = 0 AND b.y IS NULL']
+G_TAILS = [('*', ''), ('a.x, b.y', ' ORDER BY a.x LIMIT 2'), ('a.x, count(*) AS n', ' GROUP BY a.x')]
+GEN = []
+for _j in G_JOINS:
+    for _on in G_ONS:
+        for _w in G_WHERES:
+            for _tg, _tail in G_TAILS:
+                GEN.append('SELECT %s FROM {A}.tbl1 AS a %s {B}.tbl2 AS b ON %s%s%s' % (_tg, _j, _on, (' WHERE ' + _w) if _w else '', _tail))
+
+
+def gen_expected(tmpl):
+    exp = {}
+    for q, t in re.findall(r'\{([AB])\}\.(\w+)', tmpl):
+        exp.setdefault({'A': 'int1', 'B': 'int2'}[q], set()).add(t)
+    return exp
+
+
 QUAL = {'A': 'int1', 'B': 'int2', 'M': 'mindsdb', 'P': 'proj'}
 CATALOG_NAMES = {'int1', 'int2', 'files', 'apidb', 'mindsdb', 'proj'}
 
 
 def text(name, bits_a, bits_b, bits_m):
-    tmpl = SK[name][0]
+    tmpl = GEN[name] if isinstance(name, int) else SK[name][0]
     return tmpl.format(A=PL.spell('int1', bits_a), B=PL.spell('int2', bits_b), M=PL.spell('mindsdb', bits_m), P=PL.spell('proj', bits_m))
 
 
@@ -59,7 +81,11 @@ def leaf(name, bits_a, bits_b, bits_m, as_dicts, legacy_meta):
     """-> (problems_c09, problems_c10, info)"""
     from mindsdb_sql.planner import steps as S
     from mindsdb_sql.parser.ast import Identifier
-    tmpl, exp_fetch, exp_pred = SK[name]
+    if isinstance(name, int):
+        tmpl = GEN[name]
+        exp_fetch, exp_pred = gen_expected(tmpl), []
+    else:
+        tmpl, exp_fetch, exp_pred = SK[name]
     api = 'apidb' in tmpl
     ts = 'tspred' in tmpl
     kw = PL.catalog(as_dicts=as_dicts, legacy_meta=legacy_meta, api=api, ts=ts)
@@ -127,4 +153,17 @@ def step(name, bits_a, bits_b, bits_m, as_dicts, legacy_meta, which):
     as_dicts, legacy_meta = PL.cb(as_dicts), PL.cb(legacy_meta)
     with PL.NoTracing():
         p09, p10, info = leaf(name, ba, bb, bm, as_dicts, legacy_meta)
+    return len(p09) if which == 9 else len(p10)
+
+
+def step_gen(base, idx_bits, a0, b0, as_dicts, legacy_meta, which):
+    idx = base
+    for i, b in enumerate(idx_bits):
+        if PL.cb(b):
+            idx += (1 << i)
+    a0, b0, as_dicts, legacy_meta = PL.cb(a0), PL.cb(b0), PL.cb(as_dicts), PL.cb(legacy_meta)
+    if idx >= len(GEN):
+        return 0
+    with PL.NoTracing():
+        p09, p10, info = leaf(idx, (a0, False, a0), (b0, b0, False), (False,), as_dicts, legacy_meta)
     return len(p09) if which == 9 else len(p10)
